@@ -212,6 +212,13 @@ func runSession(r *core.Run) {
 	// ---- responses are generated when the processing delay has elapsed
 	var rstream []byte
 	var rends []int
+	type keptResponse struct {
+		pdu  protocol.PDU
+		site string
+		img  []byte
+		seq  uint32
+	}
+	var keptResp []keptResponse
 	var now time.Duration
 	for k, p := range pend {
 		if p.at > now {
@@ -273,8 +280,10 @@ func runSession(r *core.Run) {
 		rstream = append(rstream, b...)
 		rends = append(rends, len(rstream))
 		r.Event("server answers %s cmd=%#x seq=%v after %v", want, cmd, hseq, p.at)
+		keptResp = append(keptResp, keptResponse{resp, want, append([]byte(nil), b...), resp.GetSequenceID()})
 		// a second response generator some types offer must agree with GenEmptyResponse
 		if gm := reflect.ValueOf(p.req).MethodByName("GenerateResponseHeader"); gm.IsValid() && gm.Type().NumIn() == 0 && gm.Type().NumOut() == 1 {
+			r.Probe("second_response_generator")
 			var alt protocol.PDU
 			r.Call(site+".GenerateResponseHeader", func() {
 				if v, ok := gm.Call(nil)[0].Interface().(protocol.PDU); ok && !gm.Call(nil)[0].IsNil() {
@@ -309,6 +318,7 @@ func runSession(r *core.Run) {
 				if c.Prob(1, 3) {
 					ns = edges[c.Intn(len(edges))]
 				}
+				r.Probe("set_seq_on_generated_response")
 				r.Call(want+".SetSequenceID", func() { cp.SetSequenceID(ns) })
 				if cp.GetSequenceID() != ns {
 					r.Fail("C10", "set-seq", want, "getter", "SetSequenceID(%d) on a generated response, then GetSequenceID()=%d", ns, cp.GetSequenceID())
@@ -331,6 +341,22 @@ func runSession(r *core.Run) {
 				}
 			}
 		}
+	}
+	// responses generated earlier are values of their own: generating later ones must not have changed them
+	for i, k := range keptResp {
+		if k.pdu.GetSequenceID() != k.seq {
+			r.Fail("C10", "resp-seq", k.site, "changed-later", "response %d of %d reported sequence %d when generated and %d after later responses were generated", i+1, len(keptResp), k.seq, k.pdu.GetSequenceID())
+			break
+		}
+		var b2 []byte
+		var err2 error
+		if pp := r.Call(k.site+".IEncode", func() { b2, err2 = k.pdu.IEncode() }); pp == nil && err2 == nil && !bytes.Equal(b2, k.img) {
+			r.Fail("C10", "resp-encode", k.site, "changed-later", "response %d of %d encodes differently after later responses were generated: %s, was %s", i+1, len(keptResp), hexN(b2, 24), hexN(k.img, 24))
+			break
+		}
+	}
+	if len(keptResp) > 1 {
+		r.Probe("responses_retained")
 	}
 	// ---- client: frame, dispatch, pair by sequence id
 	if len(rends) == 0 {
@@ -407,6 +433,7 @@ func checkSetSeq(r *core.Run, proto *spec.Proto, pdu protocol.PDU, how string) {
 	if c.Prob(1, 3) {
 		ns = []uint32{0, 1, 0x7fffffff, 0x80000000, 0xffffffff, 0x00010000, 0x01000000}[c.Intn(7)]
 	}
+	r.Probe("set_seq_on_" + how + "_pdu")
 	var b0 []byte
 	r.Call(site+".IEncode", func() { b0, _ = pdu.IEncode() })
 	if p := r.Call(site+".SetSequenceID", func() { pdu.SetSequenceID(ns) }); p != nil {
